@@ -959,7 +959,7 @@ func FunctionMap() map[string]physical.FunctionDetails {
 				},
 				{
 					ArgumentTypes: []octosql.Type{octosql.String},
-					OutputType:    octosql.Int,
+					OutputType:    octosql.TypeSum(octosql.Int, octosql.Null),
 					Strict:        true,
 					Function: func(values []octosql.Value) (octosql.Value, error) {
 						n, err := strconv.ParseInt(values[0].Str, 10, 64)
@@ -1003,7 +1003,7 @@ func FunctionMap() map[string]physical.FunctionDetails {
 				},
 				{
 					ArgumentTypes: []octosql.Type{octosql.String},
-					OutputType:    octosql.Float,
+					OutputType:    octosql.TypeSum(octosql.Float, octosql.Null),
 					Strict:        true,
 					Function: func(values []octosql.Value) (octosql.Value, error) {
 						n, err := strconv.ParseFloat(values[0].Str, 64)
